@@ -168,7 +168,17 @@ def check(ctx):
     R4 = ctx.rule("R4", "configured numbers reach divisions / admission bounds only when non-zero; a window start before the clock's origin does not deny forever")
     nonzero_limit_guard(ctx, R4)
     from .guards import body_family
-    fam = body_family(prog, "acmed::endpoint::RateLimit::request_allowed")
+    # evaluation-first: a period reaching before the clock's origin (now - period not representable) still admits while the log is
+    # below the bound — block_until_allowed interpreted on such limiters (rate_model.py)
+    from .rate_model import NOW, entry_table
+    et = entry_table(prog)
+    huge = [r for r in (et or []) if any(p_ > NOW for _n, p_ in r[0])]
+    if huge:
+        bu = prog.async_body("acmed::endpoint::RateLimit::block_until_allowed")
+        for limits, lg, got, want in huge:
+            ctx.require(R4, got[0] == want[0], "%s:%s" % (bu.file, bu.line), "limits %s (a window starting before the clock's origin), log %s: the request %s (definition: %s)" % (limits, lg, got[0], want[0]),
+                        ["RateLimit::request_allowed", "huge-period-denies-forever", repr(limits), repr(lg)])
+    fam = [] if huge else body_family(prog, "acmed::endpoint::RateLimit::request_allowed")
     n_cs = 0
     for ra in fam:
         cs = ra.calls_to("std::time::Instant::checked_sub")
@@ -187,7 +197,8 @@ def check(ctx):
                     ctx.require(R4, uses_log and not direct, c.where(),
                                 "when now - period is not representable the request is still compared with the log size (not denied unconditionally, which hangs the first request)",
                                 ["RateLimit::request_allowed", "huge-period-denies-forever"])
-    ctx.floor(R4, "checked_sub in the admission test", n_cs, 1)
+    if not huge:
+        ctx.floor(R4, "checked_sub in the admission test", n_cs, 1)
     # limiter loop makes progress only if admission is possible: number >= 1 (guard above) — and MIN sleep > 0
     mn = prog.const("acmed::MIN_RATE_LIMIT_SLEEP_MILISEC").get("int", 0)
     mx = prog.const("acmed::MAX_RATE_LIMIT_SLEEP_MILISEC").get("int", 0)
